@@ -4,6 +4,7 @@ package main
 
 import (
 	"go/ast"
+	"go/token"
 	"go/types"
 
 	"golang.org/x/tools/go/cfg"
@@ -25,6 +26,78 @@ type PathQuery struct {
 	StopBlock func(b *cfg.Block) bool
 	// ToBlock: entering such a block counts as reaching the target.
 	ToBlock func(b *cfg.Block) bool
+	// TrackNil: a pointer variable whose nil-ness is tracked along each path
+	// (assignments of nil / of anything else, `x == nil` / `x != nil` edges), so that
+	// paths contradicting their own tests are not explored.
+	TrackNil types.Object
+}
+
+const (
+	nilUnknown = iota
+	nilYes
+	nilNo
+)
+
+func (q *PathQuery) nilAfter(n ast.Node, st int) int {
+	if q.TrackNil == nil {
+		return st
+	}
+	info := q.Fn.Info()
+	switch t := n.(type) {
+	case *ast.AssignStmt:
+		for i, l := range t.Lhs {
+			if identObj(info, l) == q.TrackNil {
+				if len(t.Rhs) == len(t.Lhs) && info.Types[ast.Unparen(t.Rhs[i])].IsNil() {
+					st = nilYes
+				} else {
+					st = nilUnknown
+				}
+			}
+		}
+	case *ast.ValueSpec:
+		for i, nm := range t.Names {
+			if info.Defs[nm] == q.TrackNil {
+				if i < len(t.Values) && !info.Types[ast.Unparen(t.Values[i])].IsNil() {
+					st = nilUnknown
+				} else {
+					st = nilYes
+				}
+			}
+		}
+	}
+	return st
+}
+
+// nilEdge refines / prunes on `x == nil` and `x != nil` conditions; ok=false means infeasible.
+func (q *PathQuery) nilEdge(cond ast.Expr, takeTrue bool, st int) (int, bool) {
+	if q.TrackNil == nil {
+		return st, true
+	}
+	info := q.Fn.Info()
+	be, isB := ast.Unparen(cond).(*ast.BinaryExpr)
+	if !isB || (be.Op != token.EQL && be.Op != token.NEQ) {
+		return st, true
+	}
+	var x ast.Expr
+	if info.Types[ast.Unparen(be.Y)].IsNil() {
+		x = be.X
+	} else if info.Types[ast.Unparen(be.X)].IsNil() {
+		x = be.Y
+	}
+	if x == nil || identObj(info, x) != q.TrackNil {
+		return st, true
+	}
+	isNilEdge := (be.Op == token.EQL) == takeTrue
+	if isNilEdge {
+		if st == nilNo {
+			return st, false
+		}
+		return nilYes, true
+	}
+	if st == nilYes {
+		return st, false
+	}
+	return nilNo, true
 }
 
 // loopHead matches the head block of the given range/for statement (entered at every iteration).
@@ -99,13 +172,18 @@ func (q *PathQuery) Escapes(from, to, via nodePred, exitOK func(ret *ast.ReturnS
 		b    *cfg.Block
 		i    int
 		prev *pathLink
+		nl   int
+	}
+	type seenKey struct {
+		r  nodeRef
+		nl int
 	}
 	if len(q.G.Blocks) == 0 {
 		return nil
 	}
 	var starts []state
 	if from == nil {
-		starts = append(starts, state{q.G.Blocks[0], 0, nil})
+		starts = append(starts, state{q.G.Blocks[0], 0, nil, nilUnknown})
 	} else {
 		for _, b := range q.G.Blocks {
 			if !b.Live {
@@ -113,21 +191,22 @@ func (q *PathQuery) Escapes(from, to, via nodePred, exitOK func(ret *ast.ReturnS
 			}
 			for i, n := range b.Nodes {
 				if from(n) {
-					starts = append(starts, state{b, i + 1, &pathLink{n, nil}})
+					starts = append(starts, state{b, i + 1, &pathLink{n, nil}, q.nilAfter(n, nilUnknown)})
 				}
 			}
 		}
 	}
-	seen := map[nodeRef]bool{}
+	seen := map[seenKey]bool{}
 	stack := starts
 	for len(stack) > 0 {
 		s := stack[len(stack)-1]
 		stack = stack[:len(stack)-1]
-		ref := nodeRef{s.b, s.i}
+		ref := seenKey{nodeRef{s.b, s.i}, s.nl}
 		if seen[ref] {
 			continue
 		}
 		seen[ref] = true
+		nl := s.nl
 		if q.ToBlock != nil && s.i == 0 && s.prev != nil && q.ToBlock(s.b) {
 			return s.prev.list()
 		}
@@ -146,6 +225,7 @@ func (q *PathQuery) Escapes(from, to, via nodePred, exitOK func(ret *ast.ReturnS
 			if to != nil && to(n) {
 				return link.list()
 			}
+			nl = q.nilAfter(n, nl)
 			if ret, ok := n.(*ast.ReturnStmt); ok && to == nil {
 				if exitOK == nil || !exitOK(ret) {
 					return link.list()
@@ -168,14 +248,19 @@ func (q *PathQuery) Escapes(from, to, via nodePred, exitOK func(ret *ast.ReturnS
 			continue
 		}
 		for k, succ := range s.b.Succs {
-			if q.Prune != nil && len(s.b.Succs) == 2 && len(s.b.Nodes) > 0 {
+			enl := nl
+			if len(s.b.Succs) == 2 && len(s.b.Nodes) > 0 {
 				if cond, ok := s.b.Nodes[len(s.b.Nodes)-1].(ast.Expr); ok {
-					if q.Prune(cond, k == 0) {
+					if q.Prune != nil && q.Prune(cond, k == 0) {
+						continue
+					}
+					var feasible bool
+					if enl, feasible = q.nilEdge(cond, k == 0, nl); !feasible {
 						continue
 					}
 				}
 			}
-			stack = append(stack, state{succ, 0, link})
+			stack = append(stack, state{succ, 0, link, enl})
 		}
 	}
 	return nil
